@@ -1,0 +1,47 @@
+//go:build verif
+
+package parser
+
+import (
+	"sort"
+
+	"github.com/skx/evalfilter/v2/lexer"
+)
+
+// Read-only accessors used by the verification harness in /verif.
+
+// VerifPrecedences returns a copy of the precedence table.
+func VerifPrecedences() map[string]int {
+	out := make(map[string]int)
+	for k, v := range precedences {
+		out[string(k)] = v
+	}
+	return out
+}
+
+// VerifLevels returns the names and values of the precedence levels.
+func VerifLevels() map[string]int {
+	return map[string]int{"LOWEST": LOWEST, "TERNARY": TERNARY, "ASSIGN": ASSIGN,
+		"COND": COND, "EQUALS": EQUALS, "CMP": CMP, "LESSGREATER": LESSGREATER,
+		"SUM": SUM, "PRODUCT": PRODUCT, "POWER": POWER, "MOD": MOD,
+		"PREFIX": PREFIX, "CALL": CALL, "INDEX": INDEX}
+}
+
+// VerifRegistrations returns the token types with a prefix, infix and
+// postfix parse function, each sorted.
+func VerifRegistrations() (prefix, infix, postfix []string) {
+	p := New(lexer.New(""))
+	for k := range p.prefixParseFns {
+		prefix = append(prefix, string(k))
+	}
+	for k := range p.infixParseFns {
+		infix = append(infix, string(k))
+	}
+	for k := range p.postfixParseFns {
+		postfix = append(postfix, string(k))
+	}
+	sort.Strings(prefix)
+	sort.Strings(infix)
+	sort.Strings(postfix)
+	return
+}
